@@ -182,6 +182,10 @@ EXPORT errno_t _mbstowcs_s_chk(size_t *restrict retvalp, wchar_t *restrict dest,
     orig_dest = dest;
     errno = 0;
 
+    /* never let libc store more than dmax wide characters */
+    if (dest && len > dmax) {
+        len = dmax;
+    }
     *retvalp = mbstowcs(dest, src, len);
 
     if (likely(*retvalp < dmax)) {
